@@ -43,7 +43,11 @@ int lib_deflate(struct z_stream_s *s, int flush)
 }
 int lib_deflateEnd(struct z_stream_s *s) { if (g_exc) return 0; __CPROVER_assert(g_z_open, "deflateEnd on an open stream"); g_z_open = 0; s->state = 0; return 0; }
 int lib_deflateInit2_(struct z_stream_s *s, int a, int b, int c, int d, int e, const char *v, int sz)
-{ if (g_exc) return 0; if (nondet_bool()) return -4; g_z_open = 1; g_z_finished = 0; g_z_in = 0; g_z_out = 0; g_fwd = 0; s->state = (void *)1; return 0; }
+{ if (g_exc) return 0;
+  /* zlib manual: windowBits 16 + (9..15) selects the gzip wrapper (C14: the output is a gzip stream); Z_DEFLATED; memLevel 1..9; level -1..9; strategy 0..4 */
+  __CPROVER_assert(c >= 16 + 9 && c <= 16 + 15, "deflateInit2 asks for the gzip format (windowBits 16 + 9..15)");
+  __CPROVER_assert(b == 8 && d >= 1 && d <= 9 && a >= -1 && a <= 9 && e >= 0 && e <= 4, "deflateInit2 arguments in the ranges of the zlib manual");
+  if (nondet_bool()) return -4; g_z_open = 1; g_z_finished = 0; g_z_in = 0; g_z_out = 0; g_fwd = 0; s->state = (void *)1; return 0; }
 
 /* ---- the inner writer (virtual BaseCborOutputWriter): accepts p[0..n) in order; may fail (C16) */
 struct BaseCborOutputWriter;
@@ -91,7 +95,8 @@ void ofstream__open(struct ofstream *f, cstring path) { if (g_exc) return; if (p
   if (nondet_bool()) { f->failed = 1; f->open_ = 0; return; } f->open_ = 1; f->failed = 0; g_f_open = 1; g_f_flushed = 0; g_f_renamed = 0; }
 _Bool ofstream__fail(struct ofstream *f) { return f->failed; }
 _Bool ofstream__is_open(struct ofstream *f) { return f->open_; }
-struct ofstream *ofstream__write(struct ofstream *f, char *p, long n) { if (g_exc) return f; if (!f->open_ || g_f_renamed) g_f_order_bad = 1; if (nondet_bool()) { f->failed = 1; g_lost = 1; } g_f_flushed = 0; return f; }
+unsigned long g_f_wbytes; char *g_f_wsrc;
+struct ofstream *ofstream__write(struct ofstream *f, char *p, long n) { if (g_exc) return f; if (!f->open_ || g_f_renamed) g_f_order_bad = 1; __CPROVER_assert(n >= 0 && __CPROVER_r_ok(p, (unsigned long)n), "ofstream::write source range readable"); g_f_wbytes += (unsigned long)n; g_f_wsrc = p; if (nondet_bool()) { f->failed = 1; g_lost = 1; } g_f_flushed = 0; return f; }
 struct ofstream *ofstream__flush(struct ofstream *f) { if (g_exc) return f; if (f->open_) g_f_flushed = 1; return f; }
 void ofstream__close(struct ofstream *f) { if (g_exc) return; f->open_ = 0; g_f_open = 0; }
 int lib_rename(char *a, char *b) { if (g_exc) return 0; if (g_f_open || !g_f_flushed || g_f_renamed) g_f_order_bad = 1;
@@ -121,5 +126,9 @@ int lib_lzma_code(struct lzma_stream_s *s, int action)
   return 0;
 }
 int lib_lzma_easy_encoder(struct lzma_stream_s *s, unsigned int preset, int check)
-{ if (g_exc) return 0; if (nondet_bool()) return 5; g_z_open = 1; g_z_finished = 0; g_z_in = 0; g_z_out = 0; g_fwd = 0; s->internal = (void *)1; return 0; }
+{ if (g_exc) return 0;
+  /* liblzma: preset level 0..9 (| LZMA_PRESET_EXTREME), integrity check one of NONE/CRC32/CRC64/SHA256: an .xz stream every xz decoder accepts */
+  __CPROVER_assert((preset & 0x1fU) <= 9 && (preset & ~(0x1fU | 0x80000000U)) == 0, "lzma_easy_encoder preset is a valid level");
+  __CPROVER_assert(check == 0 || check == 1 || check == 4 || check == 10, "lzma_easy_encoder integrity check is one defined by the .xz format");
+  if (nondet_bool()) return 5; g_z_open = 1; g_z_finished = 0; g_z_in = 0; g_z_out = 0; g_fwd = 0; s->internal = (void *)1; return 0; }
 void lib_lzma_end(struct lzma_stream_s *s) { if (g_exc) return; __CPROVER_assert(g_z_open, "lzma_end on an open stream"); g_z_open = 0; s->internal = 0; }
